@@ -110,6 +110,7 @@ impl<R: Read> AesReader<R> {
             cipher,
             hmac,
             finalized: false,
+            authenticated: false,
         }))
     }
 }
@@ -124,7 +125,10 @@ pub struct AesReaderValid<R: Read> {
     data_remaining: u64,
     cipher: Box<dyn aes_ctr::AesCipher>,
     hmac: Hmac<Sha1>,
+    /// The check of the authentication code has been started (it is only ever run once).
     finalized: bool,
+    /// The check of the authentication code has been completed and the code was the expected one.
+    authenticated: bool,
 }
 
 impl<R: Read> Read for AesReaderValid<R> {
@@ -143,6 +147,14 @@ impl<R: Read> Read for AesReaderValid<R> {
             // only reported once it has been checked.)
             if !self.finalized {
                 self.check_auth_code()?;
+            }
+            // (A check that failed, or that could not be completed because the authentication
+            // code could not be read, stays failed: end-of-file is only for authenticated data.)
+            if !self.authenticated {
+                return Err(io::Error::new(
+                    io::ErrorKind::InvalidData,
+                    "The authentication of the encrypted data failed in an earlier read",
+                ));
             }
             return Ok(0);
         }
@@ -200,6 +212,7 @@ impl<R: Read> AesReaderValid<R> {
                 )
             );
         }
+        self.authenticated = true;
         Ok(())
     }
 }
